@@ -32,7 +32,10 @@ def make_data(rng, kind, N):
         x = np.zeros(N); y = np.zeros(N)
     else:
         y = np.cumsum(x) * 0.1
-    return x, y
+    # overall amplitude: unit scale mostly, sometimes very small / large records (metres, strain, counts)
+    amp = rng.choice([1.0, 1.0, 1.0, 1e-6, 1e-9, 1e5])
+    ampy = amp * rng.choice([1.0, 1.0, 20.0])
+    return x * amp, y * ampy
 
 
 def make_result(rng, cross=None, which=None, kind=None, backend="numba"):
@@ -104,7 +107,18 @@ def check_ir(r, ir, tol=1e-12):
             if "unwrapped" in nm:
                 continue
             v = np.asarray(v)
+            # conditioned spectra are differences of quantities of size Gyy: rounding is relative to Gyy, not to the result
+            floor = None
+            if nm in ("GyySx", "GyyRx", "GyyCx"):
+                with np.errstate(all="ignore"):
+                    floor = 1e-9 * np.nan_to_num(np.maximum(np.abs(np.asarray(r.Gyy)), np.abs(np.asarray(r.Gxx))))
+            noisy = None
+            if r.iscsd and (nm.endswith("_dev") or nm.endswith("_error")) and nm not in ("Gxx_dev", "Gyy_dev", "Gxx_error", "Gyy_error"):
+                with np.errstate(all="ignore"):
+                    noisy = np.asarray(r.coh) > 1 - 1e-9      # 1 - coh is rounding noise there
             for j, e in enumerate(es):
+                if noisy is not None and noisy[j]:
+                    continue
                 try:
                     m = tbl[nm](e)
                 except ZeroDivisionError:
@@ -112,6 +126,6 @@ def check_ir(r, ir, tol=1e-12):
                 a = complex(v[j]); b = complex(m)
                 if (a != a) and (b != b):
                     continue
-                if not (abs(a - b) <= tol * max(1.0, abs(a), abs(b)) or (math.isinf(a.real) and a == b)):
+                if not (abs(a - b) <= 1e-9 * max(abs(a), abs(b)) + 1e-300 + (float(floor[j]) if floor is not None else 0.0) or (math.isinf(a.real) and a == b)):
                     bad.append((nm, "bin %d: implementation %r, generated table %r" % (j, v[j], m))); break
     return bad
